@@ -203,6 +203,7 @@ struct QueTarget
         install_simalloc();
         run.setup_bernoulli(bern_permille, bern_seed);
         keyspace = (uint32_t)std::max<int64_t>(1, p.knob("keyspace", 16));
+        g_cmp_style = (int)(p.knob("cmpstyle", 0) % 3);
         maxlen = (size_t)std::max<int64_t>(1, p.knob("maxlen", 40));
         size_t const z0 = ELEM_SIZES[(size_t)p.knob("zsel", 4) % N_ELEM_SIZES];
         bool const heap0 = p.knob("heap", 1) != 0;
@@ -449,6 +450,7 @@ static inline void gen_que_plan(Rng &r, Plan &p, bool for_faults, int tier)
     p.set("zsel", gen_zsel(r));
     p.set("heap", r.chance(1, 2));
     p.set("dtor_at_end", r.chance(1, 2));
+    p.set("cmpstyle", (int64_t)r.below(3));
     bool const sorted_mode = r.chance(1, 3);
     bool en[Q__COUNT];
     for (int k = 0; k < Q__COUNT; ++k) en[k] = r.chance(1, 2);
